@@ -139,7 +139,11 @@ class Interp:
         inst.fields["inner"] = None
         return self.make_error(inst)
 
+    left_try = False
+
     def make_error(self, inst):
+        if self.left_try:
+            self.res.labels.add("left_try_then_raise")
         chain = [(f.name, f.line, f.native) for f in reversed(self.frames)]
         return LyError(inst, chain)
 
@@ -406,6 +410,9 @@ class Interp:
         frames = self.frames
         try:
             self.exec_block(s[1], env)
+        except (BreakEx, ContinueEx, ReturnEx):
+            self.left_try = True
+            raise
         except LyError as e:
             self.frames = frames[:depth]
             self.count("caught")
